@@ -45,8 +45,8 @@ def checkC05 (spec obs : List ItemF) : List (String × String) :=
     match obs.find? (fun o => o.name == e.name) with
     | none => some ("", s!"item {e.name} missing")
     | some o =>
-      if projC05 o == projC05 e then none
-      else some ("", s!"{e.name}: non_exhaustive/extension marks {o.nonExhaustive}/{repr (o.fields.map (·.ext))} expected {e.nonExhaustive}/{repr (e.fields.map (·.ext))}")
+      if sameC05n o e then none
+      else some ("", s!"{e.name}: non_exhaustive/extension marks {o.nonExhaustive}/{repr (projC05n o).2} expected {e.nonExhaustive}/{repr (projC05n e).2}")
 
 open Spec.Struct in
 /-- C02 verdict: kind, set marker, one field per component in order with its type shape and default -/
